@@ -152,3 +152,19 @@ for _c in list(_REG):
         _c2.prop = 'C19'
         _c2.name = 'C19/traffic.' + _c.name.split('/', 1)[1]
         _REG.append(_c2)
+
+# "the bit rate is the one selected" on a PN53x family Target: the parameter selection request of the Initiator
+# names the rate of each direction separately (BRS octet: DSI in bits 5..3 is what the Initiator SENDS with - our
+# receiver, DRI in bits 2..0 is what it RECEIVES with - our transmitter; NFCIP-1 12.5.3.2); after the PSL response
+# the receiver runs at DSI and the transmitter at DRI - also when the two differ
+contract('nfc.clf.pn53x:Device._send_psl_response', 'C19',
+         dict(self=Obj('nfc.clf.pn532:Device', chipset=Obj('models.clf_models:RegChipset', _partial=False,
+                                                           regs=DictOf({}), sent=Fixed([])), log=Log()),
+              psl_req=Bytes(5, 5, mutable=True), psl_res=Bytes(3, 3, mutable=True), timeout=Const(0.1)),
+         name='C19/pn53x.psl-response',
+         requires=['(psl_req[3] // 8) % 8 <= 2 and psl_req[3] % 8 <= 2'],
+         ensures=[('O-negotiate.rx-rate', '(self.chipset.regs["CIU_RxMode"] // 16) % 8 == (psl_req[3] // 8) % 8'),
+                  ('O-negotiate.tx-rate', '(self.chipset.regs["CIU_TxMode"] // 16) % 8 == psl_req[3] % 8'),
+                  ('O-negotiate.brty', 'result == ("106A", "212F", "424F")[psl_req[3] % 8]'),
+                  ('O-negotiate.answered', 'len(self.chipset.sent) == 1 and self.chipset.sent[0][1:] == psl_res')],
+         raises={})
